@@ -1,6 +1,6 @@
 (* Property C04 — per-session counters (AEAD nonces) are never reused and never
    pass the limits.  Only statements, closed by `exact`, with Print Assumptions. *)
-From WG Require Import Base.Prelude Gen.Constants Nonce.Seq Nonce.Conc Nonce.Spec Nonce.Proofs Nonce.DupResp Nonce.Clamp.
+From WG Require Import Base.Prelude Gen.Constants Nonce.Seq Nonce.Conc Nonce.Spec Nonce.Proofs Nonce.DupResp Nonce.Clamp Nonce.ProgSyntax Nonce.Prog Nonce.ProgProofs Gen.NonceProg.
 Local Open Scope N_scope.
 
 (* The numbers of the property text, as the code has them now. *)
@@ -153,6 +153,52 @@ Theorem C04_clamp_by_decrement_refuted :
     emitted c = [Reject - 1; Reject - 1].
 Proof. exact clamp_by_decrement_refuted. Qed.
 Print Assumptions C04_clamp_by_decrement_refuted.
+
+
+(* THE TIE TO THE SOURCE (translator harness/cmd/nonceprog, rerun on every check):
+   Gen.NonceProg.prog is the thread program read off the source of
+   SendStagedPackets -- the guard in front of the loop, the numbering
+   expression, the over-limit test and the operation inside it -- and
+   Gen.NonceProg.sites every other access to a field named sendNonce in package
+   device.  The program equals the one the interleaving system of Nonce/Conc.v
+   hard-wires ... *)
+Theorem C04_source_thread_program : Gen.NonceProg.prog = reference_prog.
+Proof. reflexivity. Qed.
+Print Assumptions C04_source_thread_program.
+
+(* ... every other site is a Load or the Store(RejectAfterMessages) that the
+   action Expire stands for, and ExpireCurrentKeypairs consists of exactly two
+   such stores (current and next keypair) ... *)
+Theorem C04_source_other_sites :
+  forallb site_ok Gen.NonceProg.sites = true /\
+  map snd (filter (fun s => String.eqb (fst s) "ExpireCurrentKeypairs") Gen.NonceProg.sites) =
+    [OStore RejectAfterMessages; OStore RejectAfterMessages].
+Proof. split; reflexivity. Qed.
+Print Assumptions C04_source_other_sites.
+
+(* ... so the all-schedules theorem holds of the interpreter run on the program
+   extracted from the source: T < 2^13 flushers and any number of expiries, any
+   interleaving of their atomic steps, any starting counter up to the limit. *)
+Theorem C04_source_program_all_schedules :
+  forall (T : nat) (n0 : N) (ks : nat -> nat) (sched : list action),
+  N.of_nat T < 2 ^ 13 -> n0 <= Reject ->
+  let c := prun Gen.NonceProg.prog T (init n0 ks) sched in
+  NoDup (emitted c) /\ Forall (fun r => n0 <= r /\ r < Reject) (emitted c) /\ cell c + 1 < M64.
+Proof. exact (prog_emitted_distinct_below_limit Gen.NonceProg.prog C04_source_thread_program). Qed.
+Print Assumptions C04_source_program_all_schedules.
+
+(* The interpreter on the reference program is Conc.step, step for step. *)
+Theorem C04_interpreter_is_the_interleaving_system : forall T c a,
+  pstep reference_prog T c a = step T c a.
+Proof. exact pstep_reference. Qed.
+Print Assumptions C04_interpreter_is_the_interleaving_system.
+
+(* The interpreter distinguishes programs: with the clamp written as "take back
+   my own increment" (sendNonce.Add(^uint64(0))) a counter is handed out twice. *)
+Theorem C04_decrement_program_refuted :
+  exists sched, has_dup (emitted (prun decrement_prog 2 (init (Reject - 1) (fun _ => 2%nat)) sched)) = true.
+Proof. exact decrement_prog_refuted. Qed.
+Print Assumptions C04_decrement_program_refuted.
 
 (* A stress trace accepted by the checker really has the property. *)
 Theorem C04_trace_checker_sound : forall ks, conc_holdsb ks = true ->
